@@ -103,4 +103,53 @@ def CreateOK (l : List StreamMeta) : Prop :=
   (∀ s ∈ l, ThreadPartOK s.tp) ∧ (thrKeys l).Nodup ∧
   AppOK (appFacts l) ∧ RankOK (rankFacts l) ∧ CpuOK (cpuFacts l)
 
+/-! ### The single contradictions named by the property -/
+
+inductive Conflict (ss : List StreamMeta) : Prop where
+  /-- two app ids for one process -/
+  | appId (n : Str) (pid a b : Int) :
+      (n, pid, a) ∈ appFacts ss → (n, pid, b) ∈ appFacts ss → a ≠ b → Conflict ss
+  /-- two ranks for one process -/
+  | rank (n : Str) (pid r r' : Int) (k k' : Option Int) :
+      (n, pid, r, k) ∈ rankFacts ss → (n, pid, r', k') ∈ rankFacts ss → r ≠ r' → Conflict ss
+  /-- two rank counts for one process -/
+  | nranks (n : Str) (pid r r' : Int) (k k' : Option Int) :
+      (n, pid, r, k) ∈ rankFacts ss → (n, pid, r', k') ∈ rankFacts ss → k ≠ k' → Conflict ss
+  /-- one CPU index of a loom bound to two physical ids -/
+  | indexTwoPhyids (n : Str) (i p p' : Int) :
+      (n, some (i, p)) ∈ cpuFacts ss → (n, some (i, p')) ∈ cpuFacts ss → p ≠ p' → Conflict ss
+  /-- one physical id of a loom bound to two CPU indices -/
+  | phyidTwoIndexes (n : Str) (i i' p : Int) :
+      (n, some (i, p)) ∈ cpuFacts ss → (n, some (i', p)) ∈ cpuFacts ss → i ≠ i' → Conflict ss
+  /-- two thread streams with the same loom, pid and tid -/
+  | dupTid : ¬ (thrKeys ss).Nodup → Conflict ss
+  /-- a loom none of whose threads lists any CPU -/
+  | missingCpus (s : StreamMeta) (n : Str) :
+      s ∈ ss → isThr s → s.tp.loom = some n → (∀ e, (n, some e) ∉ cpuFacts ss) → Conflict ss
+  /-- a process none of whose threads carries the app id -/
+  | missingAppId (s : StreamMeta) (n : Str) :
+      s ∈ ss → isThr s → s.tp.loom = some n → (∀ a, (n, s.tp.pid, a) ∉ appFacts ss) → Conflict ss
+
+/-! ### The order the property demands -/
+
+structure LoomOrdered (l : HLoom) : Prop where
+  /-- processes by rank when the loom has ranks; `rankMin` is their minimum -/
+  byRank : l.rankEnabled = true →
+    l.procs.Pairwise (fun a b => a.rank ≤ b.rank) ∧
+    (∀ p ∈ l.procs, 0 ≤ p.rank ∧ l.rankMin ≤ p.rank) ∧ ∃ p ∈ l.procs, p.rank = l.rankMin
+  /-- else by pid (strictly: pids are distinct), and no process has a rank -/
+  byPid : l.rankEnabled = false →
+    l.procs.Pairwise (fun a b => a.pid < b.pid) ∧ ∀ p ∈ l.procs, p.rank < 0
+  /-- threads by tid, strictly -/
+  threads : ∀ p ∈ l.procs, p.threads.Pairwise (fun a b => a.tid < b.tid)
+  /-- CPUs by physical id, strictly -/
+  cpus : l.cpus.Pairwise (fun a b => a.phyid < b.phyid)
+
+structure Ordered (h : Hier) : Prop where
+  /-- looms are sorted by rank exactly when every loom has ranks -/
+  criterion : h.sortByRank = true ↔ ∀ l ∈ h.looms, l.rankEnabled = true
+  byRank : h.sortByRank = true → h.looms.Pairwise (fun a b => a.rankMin ≤ b.rankMin)
+  byName : h.sortByRank = false → h.looms.Pairwise (fun a b => cmpStr a.name b.name = .lt)
+  looms : ∀ l ∈ h.looms, LoomOrdered l
+
 end Ovni.Emu.System
